@@ -306,6 +306,10 @@ def enumerate_cases(tier):
         out.append(_case(t, mode="closure", ops=[("compress", 0)]))
         out.append(_case(dict(t, route="dict", contour=False, trace=None),
                          mode="closure", ops=[("repack", 0)]))
+    # feature-subset export that keeps fl1_max and drops fl2_max (a=2: subset of
+    # the first three scalar features area_um, deform, fl1_max)
+    out.append(_case(dict(noidx, scal=["area_um", "deform"]), mode="closure",
+                     ops=[("export_basins", 2)]))
     # channel count completed by the writer for every channel combination
     for fl in ((3,), (1, 3), (2, 3), (1, 2, 3)):
         out.append(_case(dict(_template(fl=fl), auto="omit"), mode="closure",
@@ -814,6 +818,7 @@ def _apply_corruption(h5, c, d, touched, info):
             if f"ds:{f}" in touched or f"ds:events/{f}" in touched:
                 continue      # object added by another corruption
             need.append(("feature size", [f"wrong event count: '{f}'"]))
+            touched.add(f"lenexp:{f}")
         kf = "index-length" if "index" in ev else None
         if not need:
             return {"cls": "evcount/only-contour-or-index", "kf": kf, "need": [],
@@ -940,7 +945,8 @@ def _apply_corruption(h5, c, d, touched, info):
             # the data lose a channel the metadata still announce (with a single
             # channel the file would stop being a fluorescence file)
             ch = chans[b % len(chans)]
-            if f"attr:{key}" in touched or not claim(f"ds:fl{ch}_max"):
+            if f"attr:{key}" in touched or f"lenexp:fl{ch}_max" in touched \
+                    or not claim(f"ds:fl{ch}_max"):
                 return None
             touched.add(f"attr:{key}")
             touched.add(f"attr:fluorescence:channel {ch} name")
